@@ -41,12 +41,23 @@ def main():
         order = getattr(grid, "order", "C")
         for units, dunits, factor, compatible in (("m", None, 1.0, True), ("m", "m", 1.0, True), ("m", "meter", 1.0, True),
                                                    ("m", "km", 1000.0, True), ("m", "s", None, False), ("", None, 1.0, True)):
-            for maskspec in ("none", "flex", "fixed"):
+            for maskspec0 in ("none", "flex", "fixed", "fixed:second", "fixed:row", "fixed:last-row"):
+                maskspec = maskspec0.split(":")[0]
                 if maskspec == "fixed" and (not shape or isinstance(grid, fm.NoGrid)):
                     continue
                 m = np.zeros(shape, dtype=bool)
-                if maskspec == "fixed":
+                if maskspec0 == "fixed":
                     m.reshape(-1)[0] = True
+                elif maskspec0 == "fixed:second":       # position 1 in C order: a different cell than position 1 in F order
+                    m.reshape(-1)[min(1, size - 1)] = True
+                elif maskspec0 == "fixed:row":
+                    m[0, ...] = True
+                    if m.all():
+                        continue
+                elif maskspec0 == "fixed:last-row":
+                    m[..., -1] = True
+                    if m.all():
+                        continue
                 mask = {"none": fm.Mask.NONE, "flex": fm.Mask.FLEX, "fixed": m}[maskspec]
                 info = fm.Info(time=None, grid=grid, units=units, mask=mask)
                 forms = {"shaped": base, "time": base[np.newaxis, ...]}
@@ -61,6 +72,8 @@ def main():
                 if masked_forms and maskspec == "fixed":
                     m2 = np.zeros(shape, dtype=bool)
                     m2.reshape(-1)[-1] = True        # a different mask than the info's (size >= 2 for all gridded cases)
+                    if np.array_equal(m2, m):
+                        m2 = ~m
                     forms["masked-same"] = np.ma.array(base, mask=m)
                     forms["masked-same-time"] = np.ma.array(base[np.newaxis, ...], mask=m[np.newaxis, ...])
                     if size >= 2:
@@ -70,8 +83,8 @@ def main():
                     if dunits is not None:
                         data = fm.UNITS.Quantity(payload if np.ma.isMaskedArray(payload) else np.asarray(payload), dunits)
                     n += 1
-                    distinct.add((gname, units, dunits, maskspec, fname))
-                    tag = f"grid={gname} info.units={units!r} data.units={dunits!r} mask={maskspec} form={fname}"
+                    distinct.add((gname, units, dunits, maskspec0, fname))
+                    tag = f"grid={gname} info.units={units!r} data.units={dunits!r} mask={maskspec0} form={fname}"
                     try:
                         r = tools.prepare(data, info)
                     except fm.FinamDataError:
@@ -100,14 +113,23 @@ def main():
                     keep = ~m if maskspec == "fixed" else np.ones(np.shape(exp), dtype=bool)
                     if fname == "masked-other":
                         keep = keep & ~m2    # entries masked in the payload carry no data
-                    if not np.allclose(np.asarray(got)[keep], np.asarray(exp)[keep], rtol=1e-12, atol=0):
+                    mask_ok = maskspec != "fixed" or (np.ma.isMaskedArray(r.magnitude) and np.array_equal(np.ma.getmaskarray(r.magnitude)[0], m))
+                    if not mask_ok and fname != "masked-other":
+                        pass    # reported below as a mask violation; cells masked by mistake carry no comparable value
+                    elif not np.allclose(np.asarray(got)[keep], np.asarray(exp)[keep], rtol=1e-12, atol=0):
                         viol.append(f"values changed: got {got.tolist()} expected {exp.tolist()}: {tag}")
                     if maskspec == "fixed":
                         if not np.ma.isMaskedArray(r.magnitude) or not np.array_equal(np.ma.getmaskarray(r.magnitude)[0], m):
                             if fname == "masked-other":
                                 classes.setdefault("masked-other", "prepare(np.ma.array(x, mask=M2), Info(mask=M)) with M2 != M: the result keeps the payload's own mask M2, the fixed mask M of the info is not applied")
                             else:
-                                viol.append(f"fixed mask of the info not applied: {tag}")
+                                got_m = np.ma.getmaskarray(r.magnitude)[0].tolist() if np.ma.isMaskedArray(r.magnitude) else None
+                                if fname == "flat" and order == "F":
+                                    classes.setdefault("flat-F", "prepare(flat unmasked payload, Info(grid in Fortran order, fixed mask M)): the mask is laid out in C order over the flat "
+                                                       "payload before the payload is reshaped in the grid's order, so other cells than those of M end up masked"
+                                                       f" (e.g. {tag}: mask {got_m}, expected {m.tolist()})")
+                                else:
+                                    viol.append(f"fixed mask of the info not applied: {tag}: mask {got_m}, expected {m.tolist()}")
                     if maskspec == "none" and np.ma.isMaskedArray(r.magnitude) and np.ma.getmaskarray(r.magnitude).any():
                         viol.append(f"masked values under Mask.NONE: {tag}")
                     if viol:
@@ -121,7 +143,7 @@ def main():
     viol = viol[:3] + sorted(classes.values())
     res = {"evaluations": n, "distinct_nontrivial": len(distinct), "violations": [{"case": v} for v in viol],
            "rule": "payload forms x grids x unit pairs x mask specifications on real numpy/pint (exhaustive over the listed product); distinct = (grid, units, data units, mask, form)",
-           "bound": "grids: NoGrid 0-2D, UniformGrid 1-3D both orders; 6 unit pairs; 3 mask specifications; 5 payload forms", "exhaustive": True}
+           "bound": "grids: NoGrid 0-2D, UniformGrid 1-3D both orders; 6 unit pairs; mask specifications NONE / FLEX / 4 fixed patterns; 5 payload forms (+3 masked forms)", "exhaustive": True}
     if "--json" in sys.argv:
         print(json.dumps(res))
     else:
